@@ -17,11 +17,12 @@ CONFIG = {
                   "from its source.",
     "technique": "Lean 4 proof (inductive invariant over a transition system, all schedules) + regenerated facts + scenario correspondence",
     "components": [{"name": "pipe", "timeout": {"quick": 300, "thorough": 900}},
-                   {"name": "life", "timeout": {"quick": 600, "thorough": 1800}}],
+                   {"name": "life", "timeout": {"quick": 600, "thorough": 1800}},
+                   {"name": "socks", "timeout": {"quick": 600, "thorough": 1800}}],
     "rule": "pipe: 15 enumerated scenario scripts x {PipeData alone, server per-stream path} plus random scripts of write/close events "
             "with boundary sizes; life: N sequential logical connections (either side closing) on tcp/ws (thorough: more carriers, N up "
             "to 100), then session ending none/cut/garbage; N raw peers violating the handshake that keep their end open / hang up "
-            "(goroutines, descriptors per refused session, server-side close seen by every peer); non-trivial = data moved / connections completed; distinct = distinct op line",
+            "(goroutines, descriptors per refused session, server-side close seen by every peer); socks: connections through the built-in SOCKS5 channel (echo / target closes first / application closes first, goroutine census); non-trivial = data moved / connections completed; distinct = distinct op line",
     "trusted_base": COMMON_TB + ["Go runtime, net.Pipe, smux, go-multistream (outside the model)"],
     "assumptions": ["goroutine census by function name (streams.pipeData) and by total count at quiescent points",
                     "busy loop = more than half a core used by the idle process over 0.7 s"],
